@@ -37,8 +37,9 @@ _GEN_C17 = dict(
               _g("all", "sim", 14, "mixed-walks", num=120, max=300, salt=2)])
 
 _GEN_C37 = dict(
-    quick=[_g("mal", "sim", 8, "malformed-walks", num=25, max=90, salt=3)],
-    thorough=[_g("mal", "sim", 10, "malformed-walks", num=400, max=1500, salt=3)])
+    # one history per (discovery state, shape of the injected message) edge, continued by well-formed steps
+    quick=[_g("mal", "edges", 8, "malformed-edges", max=70)],
+    thorough=[_g("mal", "edges", 10, "malformed-edges", max=1500)])
 
 
 def _ops(s):
